@@ -122,6 +122,16 @@ func (env *Env) evalCall(x *ast.CallExpr, st *State) Val {
 				r := env.eval(x.Args[0], st)
 				_, _, data, pos, _ := readerState(env, st, r)
 				return ioRest(env, st, data, pos)
+			case "trig":
+				// trig(t1, t2, ...): instantiation pattern of the enclosing quantifier; value true
+				if env.trigs != nil {
+					var ts []string
+					for _, a := range x.Args {
+						ts = append(ts, env.eval(a, st).T)
+					}
+					*env.trigs = append(*env.trigs, strings.Join(ts, " "))
+				}
+				return boolVal("true")
 			case "rankof":
 				// rankof(f, x): the position of x in the total preorder decided by the comparator f,
 				// as a real number. A specification that assumes sign(f(a, b)) == sign(rankof(f, a) -
@@ -454,6 +464,8 @@ func (env *Env) evalQuant(kind string, x *ast.CallExpr, st *State) Val {
 	scratch := st.clone()
 	n := len(scratch.pc)
 	sub.noSafety = true
+	var trigs []string
+	sub.trigs = &trigs
 	body := sub.evalBool(ret.Results[0], scratch)
 	extra := scratch.pc[n:]
 	for k, v := range scratch.skw {
@@ -509,8 +521,20 @@ func (env *Env) evalQuant(kind string, x *ast.CallExpr, st *State) Val {
 	}
 	g := and(guards...)
 	var q string
+	// trig(t, ...) inside the body: explicit instantiation patterns (each call one multi-pattern);
+	// a pattern only restricts when the solver instantiates, never what the formula says
+	pat := func(f string) string {
+		if len(trigs) == 0 {
+			return f
+		}
+		out := "(! " + f
+		for _, t := range trigs {
+			out += " :pattern (" + t + ")"
+		}
+		return out + ")"
+	}
 	if kind == "forall" {
-		q = fmt.Sprintf("(forall (%s) %s)", strings.Join(binders, " "), implies(g, body))
+		q = fmt.Sprintf("(forall (%s) %s)", strings.Join(binders, " "), pat(implies(g, body)))
 		if len(hintExprs) > 0 && len(bnames) == 1 {
 			// forall(lo, hi, hint..., func(j) P): the instances at the hint terms are conjoined
 			// (they are implied by the quantifier, so the formula is equivalent): hypotheses
@@ -1183,7 +1207,7 @@ func (env *Env) applyContract(fi *FuncInfo, recv *Val, args []Val, st *State, ca
 	c := env.c
 	con := fi.Contract
 	c.calleesUsed[fi.Key] = true
-	if con.Trusted {
+	if con.isTrusted(c.e.curProp) {
 		c.trust("trusted contract of " + fi.Key + " (body not verified)")
 	}
 	bind := env.bindArgs(fi, recv, args, st)
@@ -1301,6 +1325,19 @@ func (env *Env) applyContract(fi *FuncInfo, recv *Val, args []Val, st *State, ca
 // havocFrame forgets everything the callee may modify: "x.f", "x.*", "Type.f".
 func (env *Env) havocFrame(fi *FuncInfo, m string, ce *Env, st *State) {
 	c := env.c
+	if strings.HasPrefix(m, "*") {
+		// "*p": the cell behind a pointer to a non-struct value
+		if ex, err := parseExprCached(strings.TrimPrefix(m, "*")); err == nil {
+			ref := ce.eval(ex, st)
+			if pt, ok := types.Unalias(ce.subst(ref.Ty)).Underlying().(*types.Pointer); ok {
+				es := ce.sortOf(pt.Elem())
+				key := "ptr." + es
+				h := ce.heapTerm(st, key, es)
+				st.heap[key] = app("store", h, ref.T, c.fresh("mod_ptr", es))
+			}
+		}
+		return
+	}
 	base, field, ok := cutLast(m, ".")
 	if !ok {
 		c.unsupported("bad modifies clause %q", m)
